@@ -32,6 +32,13 @@ def gen_cases(tier, seed):
                     "tz": r.choice(["America/New_York", "Europe/London", "Australia/Lord_Howe", "America/St_Johns", "Europe/Berlin"]) if r.random() < 0.2 else None})
     for i in range(n // 10):
         out.append({"seed": env.seed_for(seed, ID, tier, "file", i), "mode": "file"})
+    # the stale check itself runs on several workers: a stored value with one older and one newer source, the worker that queried the older
+    # source held at every instruction of its bookkeeping while the other completes (vmon/preempt.py) - the value is rebuilt all the same
+    combos = [(W, of) for W in (2, 4) for of in (True, False)]
+    if tier == "quick":
+        combos = combos[seed % 2::2]
+    for W, of in combos:
+        out.append({"seed": env.seed_for(seed, ID, tier, "stale_fanin", W, of), "mode": "preempt_stale", "W": W, "older_first": of})
     return out
 
 
@@ -177,6 +184,10 @@ def run_file(desc, prop="C05"):
 def run_case(desc):
     if desc.get("mode") == "file":
         return run_file(desc)
+    if desc.get("mode") == "preempt_stale":
+        from vmon import preempt
+
+        return preempt.enumerate_stale_fanin(desc)
     res = histcheck.run_case(desc, "C05", ("C05",), "count_checks")
     c = res.get("counters", {})
     res["nontrivial"] = c.get("uptodate_values_checked", 0) > 0 and c.get("outofdate_values_checked", 0) > 0
@@ -190,6 +201,8 @@ def finalize(agg, tier):
         reasons.append("too few up-to-date / out-of-date stored values were checked")
     if c["file_identical_rebuilds"] < 5:
         reasons.append("fewer than 5 file-backed rebuilds to byte-identical content")
+    if c["preempt_stale_holds_other_completed"] < 100:
+        reasons.append("stale-check preemption: fewer than 100 holds during which the other source's query completed")
     if c["silent_rerun_checks"] < 100:
         reasons.append("fewer than 100 silent re-run checks")
     return reasons
